@@ -594,3 +594,107 @@ def slice_length(ctx, config="all"):
     rep.analysed = {"build_config": config, "result_sites_evaluated": n}
     rep.floor("result_sites_evaluated", n, 2 * len(ctx.cfgs()))
     return rep
+
+
+SLICING = ("::index_mut", "::index", "::split_at_mut", "::split_at", "::get_mut", "::get", "::len", "::is_empty",
+           "::as_mut_ptr", "::as_ptr", "::split_first_mut", "::split_last_mut", "::first_mut", "::last_mut")
+
+
+def write_extent(ctx, config="all"):
+    """R-GUARD/write-extent: copy_{le,be}_bytes_to write at most BYTES bytes of the caller's buffer.
+
+    The buffer may be longer than BYTES (the functions return how much they wrote); everything past BYTES belongs to the
+    caller.  Interval interpretation per configuration: wherever (a sub-slice of) the buffer is handed to a function
+    that can write through it -- copy_from_slice, chunks_mut, iter_mut, fill, ... , anything but the slicing operations
+    themselves -- its length has an upper bound <= BYTES.  A private helper of the crate that receives the buffer is
+    analysed the same way instead."""
+    from . import total_rule
+    rep = Report("R-GUARD/write-extent", "copy_{le,be}_bytes_to (and the private helpers they hand the buffer to) pass the "
+                 "caller's buffer to a writing callee only as a slice of at most BYTES bytes in every configuration "
+                 "(interval of the slice length at the call): bytes past BYTES are never touched")
+    prog = ctx.prog(config)
+    T = total_rule.totality(ctx, config)
+    bytes_cfg = prog.const_cfg.get(ir.BYTES_CONST, {})
+    n = 0
+    for e in ("le", "be"):
+        k0 = "crate::bytes::<impl %s>::copy_%s_bytes_to" % (U, e)
+        if k0 not in prog.bodies:
+            rep.violation("missing:copy_%s_bytes_to" % e, "", "not found")
+            continue
+        work, done, bad = [(k0, 2)], set(), None
+        while work:
+            k, bufp = work.pop()
+            if (k, bufp) in done:
+                continue
+            done.add((k, bufp))
+            for cfg in ctx.cfgs():
+                want = bytes_cfg.get(cfg)
+                if want is None:
+                    continue
+                a = T.ai(k, cfg)
+                v = a.v
+                # locals that are (sub-slices of) the buffer
+                derived = {bufp}
+                changed = True
+                while changed:
+                    changed = False
+                    for bi in v.reachable:
+                        for s in v.blocks[bi]["stmts"]:
+                            if s["s"] == "assign" and not s["pl"]["p"] and s["pl"]["l"] not in derived:
+                                rv = s["rv"]
+                                src = None
+                                if rv["r"] == "use" and rv["a"].get("o") in ("copy", "move"):
+                                    src = rv["a"]["l"]
+                                elif rv["r"] in ("ref", "rawptr"):
+                                    src = rv["pl"]["l"]
+                                elif rv["r"] == "cast" and rv["a"].get("o") in ("copy", "move"):
+                                    src = rv["a"]["l"]
+                                if src in derived:
+                                    derived.add(s["pl"]["l"])
+                                    changed = True
+                        t = v.blocks[bi]["term"]
+                        if t["t"] == "call" and not t["dest"]["p"] and t["dest"]["l"] not in derived and t["args"] \
+                                and t["args"][0].get("o") in ("copy", "move") and t["args"][0]["l"] in derived \
+                                and (ir.callee_name(t["fn"]) or "").endswith(SLICING):
+                            derived.add(t["dest"]["l"])
+                            changed = True
+                for bi, t in v.calls():
+                    name = ir.callee_name(t["fn"]) or ""
+                    if name.endswith(SLICING):
+                        continue
+                    st = a.state_before_term(bi)
+                    if st is None:
+                        continue
+                    for j, arg in enumerate(t["args"]):
+                        if arg.get("o") not in ("copy", "move") or arg["p"] or arg["l"] not in derived:
+                            continue
+                        at = v.local_ty(arg["l"])
+                        if not (at.get("k") == "ref" and at.get("m")):
+                            continue       # a shared borrow cannot write
+                        pt = a.pointee_ty(arg["l"])
+                        if pt is None or pt.get("k") != "slice":
+                            continue
+                        if name in prog.bodies:
+                            if prog.bodies[name]["file"] == "src/bytes.rs":
+                                work.append((name, j + 1))   # private helper: analysed itself
+                            continue
+                        n += 1
+                        lk = a.len_key(arg["l"], st)
+                        iv = None
+                        if lk is not None:
+                            iv = (lk[1], lk[1]) if lk[0] == "const" else a.get(st, lk)
+                        if iv is None or iv[1] > want:
+                            bad = bad or (name, v.where(bi), cfg, iv, want)
+        b0 = prog.bodies[k0]
+        where = "%s:%s" % (b0["file"], b0["line"])
+        if bad:
+            name, w, cfg, iv, want = bad
+            rep.violation("copy_%s_bytes_to|extent" % e, where, "the buffer is handed to %s at %s as a slice that can be %s bytes "
+                          "long where BYTES is %d (configuration (%d,%d)): bytes of the caller's buffer past the returned "
+                          "length can be overwritten" % (name.split("::")[-1], w, ("up to %d" % iv[1]) if iv else "arbitrarily many",
+                                                         want, cfg[0], cfg[1]))
+        else:
+            rep.ok("copy_%s_bytes_to|extent" % e, where, "every writing callee receives at most BYTES bytes of the buffer")
+    rep.analysed = {"build_config": config, "writing_hand_overs_evaluated": n}
+    rep.floor("writing_hand_overs_evaluated", n, 2)
+    return rep
